@@ -13,7 +13,7 @@ class Unsupported(Exception):
     pass
 
 
-TOK = re.compile(r"\s*(?:(//[^\n]*)|(\d[\d_]*(?:[iu](?:8|16|32|64|size))?)|([A-Za-z_][A-Za-z_0-9]*)|(&&|\|\||==|!=|<=|>=|->|::|\+=|-=|[-+*/%!<>(){},;:.=&]))")
+TOK = re.compile(r"\s*(?:(//[^\n]*)|(\d[\d_]*(?:[iu](?:8|16|32|64|size))?)|([A-Za-z_][A-Za-z_0-9]*)|(&&|\|\||==|!=|<<|<=|>=|->|::|\+=|-=|[-+*/%!<>(){},;:.=&]))")
 
 UNSIGNED = {"u8", "u16", "u32", "u64", "usize"}
 # the named constants of f64 / f32, as constructors of `Gen.FConst` (floats are not modelled; which constant a running minimum or
@@ -144,7 +144,7 @@ class P:
             raise Unsupported("statement form not supported: " + str(self.peek()))
         return e
 
-    PREC = [("||",), ("&&",), ("==", "!=", "<", "<=", ">", ">="), ("+", "-"), ("*", "/", "%")]
+    PREC = [("||",), ("&&",), ("==", "!=", "<", "<=", ">", ">="), ("<<",), ("+", "-"), ("*", "/", "%")]
 
     def expr(self, level=0, nostruct=False):
         if level == len(self.PREC):
@@ -235,6 +235,8 @@ class P:
                 a = self.expr()
                 self.eat("op", ")")
                 return a                                   # widening conversion between unsigned types
+            if path[0] in UNSIGNED and last == "BITS" and not self.at("("):
+                return ("int", path[0][1:] if path[0] != "usize" else "64")
             if path[0] in UNSIGNED and last in ("max_value", "MAX"):
                 if self.at("("):
                     self.eat()
@@ -277,6 +279,9 @@ def lean(e):
     if k == "not":
         return f"(!{lean(e[1])})"
     if k == "as":
+        if e[1] in ("f32", "f64"):
+            # integer → float conversion rounds to 24 / 53 significant bits: kept visible (BigtoolsModel/FloatRound.lean)
+            return f"(FR.{e[1]} ({lean(e[2])}))"
         return lean(e[2]) if e[1] in UNSIGNED else f"(↑{lean(e[2])})"
     if k == "call":
         return "(" + " ".join([e[1]] + [lean(a) if a[0] in ("int", "var") else "(" + lean(a) + ")" for a in e[2]]) + ")"
@@ -284,6 +289,8 @@ def lean(e):
         op = e[1]
         if op in CMP:
             return f"decide ({lean(e[2])} {CMP[op]} {lean(e[3])})"
+        if op == "<<":
+            return f"({lean(e[2])} <<< {lean(e[3])})"
         return f"({lean(e[2])} {op} {lean(e[3])})"
     if k == "if":
         return f"(if {lean(e[1])} then {lean(e[2])} else {lean(e[3])})"
